@@ -450,7 +450,7 @@ class Polynomial(Vector):
 
         # Mask extraneous zeros
         # Handily, they always show up first in the array of roots
-        max_shifts = total_shifts.max()
+        max_shifts = np.max(total_shifts, initial=0)
         for k in range(max_shifts):
             root_mask[k,...][total_shifts > k] = True
 
